@@ -15,7 +15,7 @@ const nsPerSec = "1000000000"
 // droppedPrefixes: calls with no effect on the modelled state (logging,
 // tracing, metrics emission). Their arguments are still evaluated.
 var droppedPrefixes = []string{
-	"logger.", "metrics.Metrics.", "metrics.(*NullMetrics).", "internal/otelutil.",
+	"logger.", "metrics.Metrics.", "metrics.MetricsBackend.", "metrics.(*NullMetrics).", "internal/otelutil.",
 	"go.opentelemetry.io/otel/trace.", "go.opentelemetry.io/otel/attribute.", "go.opentelemetry.io/otel/codes.",
 	"fmt.Print", "fmt.Fprint", "log.", "os.Stderr", "runtime.Gosched", "runtime/debug.",
 	"context.", "github.com/sirupsen/logrus.",
@@ -182,6 +182,31 @@ func (ex *Exec) modelled(st *State, ref string, fn *types.Func, recv *Val, args 
 			ex.eng.qn++
 			q := fmt.Sprintf("q_sc_%d", ex.eng.qn)
 			return one(b("(exists ((" + q + " Int)) (and (<= 0 " + q + ") (< " + q + " " + s.kid("len").S + ") (= (select " + s.kid("elems").S + " " + q + ") " + v.S + ")))"))
+		}
+	case "crypto/sha1.Sum":
+		d := args[0]
+		if d.Sh != nil && d.Sh.Kind == "slice" {
+			ex.eng.smt.declFun("uf_sha1", "(declare-fun uf_sha1 ((Array Int Int) Int) (Array Int Int))")
+			ex.assumption("crypto/sha1.Sum: a deterministic function of the input bytes (uninterpreted)")
+			rt := r0()
+			sh := ex.eng.sh.shapeOf(rt)
+			arr := &Val{Sh: sh.Kids[0], S: "(uf_sha1 " + d.kid("elems").S + " " + d.kid("len").S + ")"}
+			return one(&Val{Sh: sh, T: rt, Kids: []*Val{arr}})
+		}
+	case "encoding/binary.bigEndian.Uint32":
+		b := args[0]
+		if b.Sh != nil && b.Sh.Kind == "slice" {
+			ex.safety(st, "index", pos, "(<= 4 "+b.kid("len").S+")")
+			e := func(i int) string { return ex.loaded(&Val{Sh: leafShape(types.Typ[types.Uint8], "Int"), T: types.Typ[types.Uint8], S: fmt.Sprintf("(select %s %d)", b.kid("elems").S, i)}).S }
+			return one(ex.intVal(ex.def("be32", "Int", "(+ (* "+e(0)+" 16777216) (* "+e(1)+" 65536) (* "+e(2)+" 256) "+e(3)+")"), r0()))
+		}
+	case "github.com/dgryski/go-wyhash.Hash":
+		d := args[0]
+		if d.Sh != nil && d.Sh.Kind == "slice" {
+			ex.eng.smt.declFun("uf_wyhash", "(declare-fun uf_wyhash ((Array Int Int) Int Int) Int)")
+			ex.eng.smt.addFunAx("uf_wyhash", "(forall ((a (Array Int Int)) (n Int) (s Int)) (! (and (<= 0 (uf_wyhash a n s)) (<= (uf_wyhash a n s) 18446744073709551615)) :pattern ((uf_wyhash a n s))))")
+			ex.assumption("wyhash.Hash: a deterministic function of the input bytes and seed (uninterpreted)")
+			return one(ex.intVal("(uf_wyhash "+d.kid("elems").S+" "+d.kid("len").S+" "+args[1].S+")", r0()))
 		}
 	case "os.Exit":
 		st.assume("false")
